@@ -274,7 +274,7 @@ def read_buffer_ops(files):
                 return None, f"{rel}: buffer lock outside any fn"
             fname, b0, b1 = f
             # the statement holding the lock expression
-            s0 = max(src.rfind(";", b0, m.start()), src.rfind("{", b0, m.start()), src.rfind("}", b0, m.start())) + 1
+            s0 = max(b0 - 1, src.rfind(";", b0, m.start()), src.rfind("{", b0, m.start()), src.rfind("}", b0, m.start())) + 1
             s1 = src.find(";", m.end())
             s1 = b1 if s1 < 0 or s1 > b1 else s1 + 1
             stmt = src[s0:s1]
@@ -481,6 +481,36 @@ def extract(repo):
     return ok, notes, rows
 
 
+def extract_more(repo):
+    """(buffer ops result | None, replay check | None, notes)"""
+    notes = []
+    root = os.path.join(repo, "crates/ripd/src")
+    files = []
+    for d, _, fs in sorted(os.walk(root)):
+        for f in sorted(fs):
+            if f.endswith(".rs"):
+                rel = os.path.relpath(os.path.join(d, f), repo)
+                src = read_src(repo, rel)
+                if src is not None:
+                    files.append((rel, src))
+    buf, why = read_buffer_ops(files) if files else (None, "crates/ripd/src not found")
+    if buf is None:
+        notes.append(f"history buffer: {why}")
+    else:
+        want = {"crates/ripd/src/session.rs": 1, "crates/ripd/src/tasks/mod.rs": 1}
+        for rel, n in sorted(buf["pushes"].items()):
+            if n != want.get(rel, 0):
+                notes.append(f"history buffer: {n} push statement(s) in {rel} (expected {want.get(rel, 0)}: the emitter's)")
+                buf = None
+                break
+    cache = read_src(repo, "crates/ripd/src/continuity_stream_cache.rs")
+    cont = read_src(repo, "crates/ripd/src/continuities.rs")
+    rep, why = (None, "continuity_stream_cache.rs / continuities.rs not found") if cache is None or cont is None else read_replay_check(cache, cont)
+    if rep is None:
+        notes.append(f"thread history source: {why}")
+    return buf, rep, notes
+
+
 def generate(repo):
     ok, notes, rows = extract(repo)
     L = []
@@ -519,7 +549,40 @@ def generate(repo):
     L.append("Proof. vm_compute. reflexivity. Qed.")
     L.append("Lemma gen_stream_order_ok : wf_kinds gen_kinds = true.")
     L.append("Proof. vm_compute. reflexivity. Qed.")
-    return "\n".join(L) + "\n", ok, notes, rows
+    # ---- the history buffers are only ever pushed to (c06_history_monotone) / the thread handler's history source
+    buf, rep, notes2 = extract_more(repo)
+    cm = lambda t: t.replace("*)", "* )").replace("(*", "( *")
+    L.append("")
+    L.append("(* every statement of crates/ripd/src that reaches a stream history buffer (Arc<Mutex<Vec<Event>>>) through its lock,")
+    L.append("   the emitters' push excepted: what it does to the buffer *)")
+    L.append(f"Definition gen_ok_buffer_ops : bool := {'true' if buf is not None else 'false'}.")
+    for n in notes2:
+        L.append("(* extractor: " + cm(n) + " *)")
+    if buf is not None:
+        for rel, fname, op, snip in buf["ops"]:
+            L.append(f"(* {rel}::{fname}: {op}   `{cm(' '.join(snip.split()))}` *)")
+        L.append("Definition gen_buffer_ops : list bufop := [" + "; ".join(op for _, _, op, _ in buf["ops"]) + "].")
+    else:
+        # never guess: the value that does NOT satisfy buffer_ops_ok
+        L.append("Definition gen_buffer_ops : list bufop := [BClear].")
+    L.append("Lemma gen_buffer_ops_found : gen_ok_buffer_ops = true.")
+    L.append("Proof. vm_compute. reflexivity. Qed.")
+    L.append("Lemma gen_buffer_ops_ok : buffer_ops_ok gen_buffer_ops = true.")
+    L.append("Proof. vm_compute. reflexivity. Qed.")
+    L.append("")
+    L.append("(* ContinuityStore::replay_events (the thread handler's snapshot) = the sidecar when try_replay accepts it, else the log;")
+    L.append("   try_replay: first expected seq, and the comparison / update of the running counter *)")
+    L.append(f"Definition gen_ok_replay_check : bool := {'true' if rep is not None else 'false'}.")
+    if rep is not None:
+        L.append(f"Definition gen_replay_check : replay_check := {{| r_first := {rep['first']}; r_cmp := {rep['cmp']} |}}.")
+    else:
+        L.append("Definition gen_replay_check : replay_check := {| r_first := 1; r_cmp := SeqIncreasing |}.")
+    L.append("Lemma gen_replay_check_found : gen_ok_replay_check = true.")
+    L.append("Proof. vm_compute. reflexivity. Qed.")
+    L.append("Lemma gen_replay_check_ok : replay_ok gen_replay_check = true.")
+    L.append("Proof. vm_compute. reflexivity. Qed.")
+    notes = notes + notes2
+    return "\n".join(L) + "\n", ok and buf is not None and rep is not None, notes, rows, buf, rep
 
 
 # ----------------------------------------------------------------- self-test
@@ -608,7 +671,7 @@ def main():
     if a.selftest:
         selftest()
         return 0
-    text, ok, notes, rows = generate(a.repo)
+    text, ok, notes, rows, buf, rep = generate(a.repo)
     out = os.path.join(a.out or ".", "StreamOrder.v")
     old = open(out).read() if os.path.exists(out) else None
     if old != text:
@@ -617,6 +680,13 @@ def main():
     for code, name, prod, hand, cap in rows:
         print(f"stream_order: {name}: producer={prod['order'] if prod else '?'} span={prod['span'] if prod else '?'} handler={hand['sorder'] if hand else '?'} "
               f"filter={hand['filter'] if hand else '?'} cap={cap}")
+    if buf is not None:
+        kinds = {}
+        for _, _, op, _ in buf["ops"]:
+            kinds[op] = kinds.get(op, 0) + 1
+        print("stream_order: history buffer statements:", ", ".join(f"{k} x{v}" for k, v in sorted(kinds.items())), "; pushes:", {k: v for k, v in buf["pushes"].items() if v})
+    if rep is not None:
+        print(f"stream_order: thread history source: try_replay first={rep['first']} check={rep['cmp']}")
     for n in notes:
         print("stream_order: NOT FOUND:", n)
     # rc 0 even when a construct is missing: the failed obligation gen_stream_order_found reports it
